@@ -78,3 +78,44 @@ Section StmtInd.
     | WindowS x rhs => HWindowS x rhs
     end.
 End StmtInd.
+
+(** statements with the induction hypothesis also for the bodies of called procedures *)
+Section StmtInd3.
+  Variable P : stmt -> Prop.
+  Hypothesis HAssign : forall x idx rhs, P (Assign x idx rhs).
+  Hypothesis HReduce : forall x idx rhs, P (Reduce x idx rhs).
+  Hypothesis HWriteCfg : forall c rhs, P (WriteCfg c rhs).
+  Hypothesis HPass : P Pass.
+  Hypothesis HIf : forall c a b, Forall P a -> Forall P b -> P (If c a b).
+  Hypothesis HFor : forall i lo hi a par, Forall P a -> P (For i lo hi a par).
+  Hypothesis HAlloc : forall x shape, P (Alloc x shape).
+  Hypothesis HCall : forall formals preds body args, Forall P body -> P (Call (Proc formals preds body) args).
+  Hypothesis HWindowS : forall x rhs, P (WindowS x rhs).
+
+  Fixpoint stmt_ind3 (s : stmt) : P s :=
+    match s with
+    | Assign x idx rhs => HAssign x idx rhs
+    | Reduce x idx rhs => HReduce x idx rhs
+    | WriteCfg c rhs => HWriteCfg c rhs
+    | Pass => HPass
+    | If c a b =>
+        HIf c a b
+            ((fix go (l : list stmt) : Forall P l :=
+                match l with [] => Forall_nil _ | s' :: r => Forall_cons _ (stmt_ind3 s') (go r) end) a)
+            ((fix go (l : list stmt) : Forall P l :=
+                match l with [] => Forall_nil _ | s' :: r => Forall_cons _ (stmt_ind3 s') (go r) end) b)
+    | For i lo hi a par =>
+        HFor i lo hi a par
+             ((fix go (l : list stmt) : Forall P l :=
+                 match l with [] => Forall_nil _ | s' :: r => Forall_cons _ (stmt_ind3 s') (go r) end) a)
+    | Alloc x shape => HAlloc x shape
+    | Call f args =>
+        match f with
+        | Proc formals preds body =>
+            HCall formals preds body args
+                  ((fix go (l : list stmt) : Forall P l :=
+                      match l with [] => Forall_nil _ | s' :: r => Forall_cons _ (stmt_ind3 s') (go r) end) body)
+        end
+    | WindowS x rhs => HWindowS x rhs
+    end.
+End StmtInd3.
